@@ -32,13 +32,12 @@ def ref_lwl(x, w, mu, v):
 
 
 def ref_ll(x, w, mu, v):
-    import mpmath
-    mpmath.mp.dps = 50
+    import math
     l = ref_lwl(x, w, mu, v)
     out = []
     for s in range(l.shape[1]):
-        mx = max(l[:, s])
-        out.append(float(mx + mpmath.log(sum(mpmath.e ** (mpmath.mpf(t) - mx) for t in l[:, s]))))
+        mx = max(l[:, s])                       # max-shifted: exact for the dominant term
+        out.append(float(mx + math.log(math.fsum(math.exp(t - mx) for t in l[:, s]))))
     return np.array(out)
 
 
@@ -177,6 +176,201 @@ def mode_stats_add(p):
     return search(one, 50)
 
 
+def ref_ml_mstep(m0, st, um, uv, uw, eps, thr):
+    """block maximisers of Q (property statement C03), counts floored at eps"""
+    w, mu, v = m0["w"].copy(), m0["mu"].copy(), m0["v"].copy()
+    nt = np.maximum(st["n"], eps)
+    if uw:
+        w = nt / st["t"]
+    if um:
+        mu = st["sum_px"] / nt[:, None]
+    if uv:
+        v = (st["sum_pxx"] - 2 * mu * st["sum_px"] + nt[:, None] * mu ** 2) / nt[:, None]
+        v = np.maximum(thr, v)
+    return w, mu, v
+
+
+def mode_ml_mstep(p):
+    from bob.learn.em import GMMMachine
+    import itertools
+
+    def one(seed):
+        rs = np.random.RandomState(seed)
+        C, D, N = rs.randint(1, 4), rs.randint(1, 4), rs.randint(8, 30)
+        x = rs.normal(size=(N, D)) * 1.5 + 3
+        for um, uv, uw in itertools.product((True, False), repeat=3):
+            m = mk(C, D, seed, update_means=um, update_variances=uv, update_weights=uw, max_fitting_steps=1)
+            m0 = {"w": m.weights.copy(), "mu": m.means.copy(), "v": m.variances.copy()}
+            st = ref_estep(x, m0["w"], m0["mu"], m0["v"])
+            ll0 = float(np.mean(ref_ll(x, m0["w"], m0["mu"], m0["v"])))
+            m.fit(x)
+            w, mu, v = ref_ml_mstep(m0, st, um, uv, uw, m.mean_var_update_threshold, m.variance_thresholds)
+            for nm, got, exp in (("weights", m.weights, w), ("means", m.means, mu), ("variances", m.variances, v)):
+                if not close(got, exp, 1e-7):
+                    ll1 = float(np.mean(ref_ll(x, m.weights, m.means, m.variances)))
+                    return {"input": {"x": x.tolist(), "weights": m0["w"].tolist(), "means": m0["mu"].tolist(), "variances": m0["v"].tolist(),
+                                      "update_means": um, "update_variances": uv, "update_weights": uw},
+                            "field": nm, "observed": np.asarray(got).tolist(), "expected": exp.tolist(),
+                            "avg_loglik_before": ll0, "avg_loglik_after": ll1,
+                            "what": "one ML EM step: %s differ from the maximiser of Q (um=%s uv=%s uw=%s); "
+                                    "average log-likelihood %.6g -> %.6g" % (nm, um, uv, uw, ll0, ll1)}
+    return search(one, 60)
+
+
+def ref_map_mstep(prior, st, um, uv, uw, r, alpha, eps, thr):
+    w0, mu0, v0 = prior
+    n = st["n"]
+    a = n / (n + r) if r is not None else np.full(n.shape, alpha)
+    w, mu, v = w0.copy(), mu0.copy(), v0.copy()
+    if uw:
+        w = a * n / st["t"] + (1 - a) * w0
+        w = w / w.sum()
+    noev = n < eps
+    with np.errstate(all="ignore"):
+        if um:
+            mu = a[:, None] * (st["sum_px"] / n[:, None]) + (1 - a[:, None]) * mu0
+            mu = np.where(noev[:, None], mu0, mu)
+        if uv:
+            vv = a[:, None] * (st["sum_pxx"] / n[:, None]) + (1 - a[:, None]) * (v0 + mu0 ** 2) - mu ** 2
+            vv = np.where(noev[:, None], v0 + mu0 ** 2 - mu ** 2, vv)
+            v = np.maximum(thr, vv)
+    return w, mu, v
+
+
+def mode_map_mstep(p):
+    import itertools
+
+    def one(seed):
+        rs = np.random.RandomState(seed)
+        C, D, N = rs.randint(1, 4), rs.randint(1, 4), rs.randint(8, 30)
+        x = rs.normal(size=(N, D)) * 1.5 + 3
+        ubm = mk(C, D, seed)
+        if seed % 3 == 0 and C > 1:
+            mm = ubm.means.copy()
+            mm[-1] = 1000.0       # a component that receives no evidence
+            ubm.means = mm
+        prior = (ubm.weights.copy(), ubm.means.copy(), ubm.variances.copy())
+        st = ref_estep(x, *prior)
+        for um, uv, uw in itertools.product((True, False), repeat=3):
+            for r, alpha in ((4.0, 0.5), (None, 0.3)):
+                from bob.learn.em import GMMMachine
+                m = GMMMachine(C, trainer="map", ubm=ubm, update_means=um, update_variances=uv, update_weights=uw,
+                               max_fitting_steps=1, map_relevance_factor=r, map_alpha=alpha)
+                m.fit(x)
+                w, mu, v = ref_map_mstep(prior, st, um, uv, uw, r, alpha, m.mean_var_update_threshold, m.variance_thresholds)
+                for nm, got, exp in (("weights", m.weights, w), ("means", m.means, mu), ("variances", m.variances, v)):
+                    if not close(got, exp, 1e-7):
+                        return {"input": {"x": x.tolist(), "prior_weights": prior[0].tolist(), "prior_means": prior[1].tolist(),
+                                          "prior_variances": prior[2].tolist(), "update_means": um, "update_variances": uv,
+                                          "update_weights": uw, "relevance_factor": r, "alpha": alpha},
+                                "field": nm, "observed": np.asarray(got).tolist(), "expected": np.asarray(exp).tolist(),
+                                "what": "one MAP step: adapted %s differ from the relevance blend of prior and data" % nm}
+                for nm, a_, b_ in (("weights", ubm.weights, prior[0]), ("means", ubm.means, prior[1]), ("variances", ubm.variances, prior[2])):
+                    if not np.array_equal(a_, b_):
+                        return {"what": "the prior's %s were modified by MAP training" % nm}
+    return search(one, 40)
+
+
+def mode_fit_loop(p):
+    """the stopping rule: drive fit with a prescribed criterion sequence (E/M steps
+    stubbed per their contracts) and compare the number of iterations with
+    min({k >= 2 : |(L[k-1]-L[k])/L[k-1]| <= thr} u {max})"""
+    import bob.learn.em.gmm as g
+    trainer = p.get("trainer", "ml")
+
+    def one(seed):
+        rs = np.random.RandomState(seed)
+        K = rs.randint(2, 9)
+        L = list(-np.cumsum(rs.uniform(0.0, 1.0, size=12)) * rs.choice([1e-3, 1.0]) - 5.0)
+        if seed % 2:
+            j = rs.randint(1, 10)
+            L[j + 1] = L[j] * (1 + rs.choice([0.0, 1e-6, -1e-6, 9e-6]))
+        thr = rs.choice([None, 1e-5, 1e-3])
+        mx = rs.choice([None, K]) if thr is not None else K
+        calls = []
+        real_m, real_e = g.m_step, g.e_step
+
+        def fake_e(data, machine):
+            return g.GMMStats(machine.n_gaussians, 1)
+
+        def fake_m(stats, machine):
+            calls.append(1)
+            mm = machine.means.copy()
+            mm[0, 0] = len(calls)
+            machine.means = mm
+            return machine, float(L[len(calls)])
+        g.m_step, g.e_step = fake_m, fake_e
+        try:
+            m = g.GMMMachine(1, convergence_threshold=thr, max_fitting_steps=mx)
+            m.means = np.zeros((1, 1))
+            m.variances = np.ones((1, 1))
+            exp = None
+            for k in range(2, 12):
+                if thr is not None and abs((L[k - 1] - L[k]) / L[k - 1]) <= thr:
+                    exp = k
+                    break
+            if mx is not None:
+                exp = mx if exp is None else min(exp, mx)
+            if exp is None:
+                return None
+            m.fit(np.zeros((3, 1)))
+        finally:
+            g.m_step, g.e_step = real_m, real_e
+        if len(calls) != exp or m.means[0, 0] != exp:
+            return {"input": {"criterion_sequence": L, "threshold": thr, "max_fitting_steps": mx},
+                    "observed": {"iterations": len(calls), "model_from_iteration": float(m.means[0, 0])},
+                    "expected": {"iterations": exp},
+                    "what": "fit ran %d iterations, the stated rule gives %d" % (len(calls), exp)}
+    return search(one, 200)
+
+
+def mode_history(p):
+    """random histories of public mutators vs a freshly built machine"""
+    import copy
+    import pickle
+    from bob.learn.em import GMMMachine
+
+    def one(seed):
+        rs = np.random.RandomState(seed)
+        C, D = rs.randint(1, 4), rs.randint(1, 4)
+        m = mk(C, D, seed)
+        x = rs.normal(size=(6, D)) + 3
+        hist = []
+        for step in range(12):
+            op = rs.randint(0, 8)
+            if op == 0:
+                w = rs.uniform(0.2, 1, size=C)
+                m.weights = w / w.sum()
+            elif op == 1:
+                m.means = rs.normal(size=(C, D))
+            elif op == 2:
+                m.variances = rs.uniform(1e-3, 2, size=(C, D))
+            elif op == 3:
+                m.variance_thresholds = float(rs.choice([1e-6, 0.5, 1.5]))
+            elif op == 4:
+                m.variance_thresholds = rs.uniform(1e-3, 1.0, size=(D,) if rs.rand() < 0.5 else (C, D))
+            elif op == 5:
+                m = copy.deepcopy(m)
+            elif op == 6:
+                m = pickle.loads(pickle.dumps(m))
+            else:
+                m.update_means, m.update_variances, m.update_weights = [bool(b) for b in rs.randint(0, 2, size=3)]
+                m.max_fitting_steps = 1
+                m.fit(x)
+            hist.append(op)
+            f = GMMMachine(C)
+            f.variance_thresholds = 1e-300
+            f.weights, f.means = m.weights, m.means
+            f.variances = m.variances
+            a, b = m.log_likelihood(x), f.log_likelihood(x)
+            thr = np.broadcast_to(m.variance_thresholds, m.variances.shape)
+            if not close(a, b, 1e-10) or np.any(m.variances < thr):
+                return {"input": {"history": hist}, "observed": np.asarray(a).tolist(), "expected": np.asarray(b).tolist(),
+                        "what": "after the history the machine's likelihood differs from a fresh machine with the same visible parameters, "
+                                "or a variance is below its floor"}
+    return search(one, 100)
+
+
 MODES = {k[5:]: v for k, v in list(globals().items()) if k.startswith("mode_")}
 
 if __name__ == "__main__":
@@ -185,8 +379,10 @@ if __name__ == "__main__":
     dask.config.set(scheduler="synchronous")
     try:
         r = MODES[mode](params)
-    except Exception as e:  # an exception in the real code on a valid input is a reproduction
+    except Exception as e:  # an exception raised inside the package on a valid input is a reproduction
         import traceback
-        r = {"reproduced": True, "what": "the real code raised %s: %s" % (type(e).__name__, e),
-             "traceback": traceback.format_exc()[-1500:]}
+        tb = traceback.format_exc()
+        inside = "/bob/learn/em/" in tb.split("Traceback")[-1].rsplit("File", 1)[-1] or "/bob/learn/em/" in tb
+        r = {"reproduced": bool(inside), "what": "the real code raised %s: %s" % (type(e).__name__, e),
+             "traceback": tb[-1500:], "harness_error": not inside}
     print(json.dumps(r, default=lambda o: np.asarray(o).tolist()))
